@@ -68,7 +68,10 @@ def vstructure_rules(rep, prog):
     rep.check("VS.prefilter", ok, fwhere(f, outer["node"]), "candidate colliders: " + why, "collider pre-filter may drop colliders: " + why)
     # 2. pairs of parents of c in A
     want_it = ("ext", "itertools.combinations", (("call", U + "pa", (c, ("param", "A")), (("A", ("param", "A")), ("i", c))), ("const", 2)), ())
-    rep.check("VS.pairs", inner["iter"] == want_it, fwhere(f, inner["node"]), "pairs range over combinations(pa(c, A), 2)",
+    pa_c = want_it[2][0]
+    want_sorted = ("ext", "itertools.combinations", (("ext", "sorted", (pa_c,), ()), ("const", 2)), ())
+    pairs_sorted = inner["iter"] == want_sorted        # pairs come out with i < j: no further normalisation needed
+    rep.check("VS.pairs", inner["iter"] == want_it or pairs_sorted, fwhere(f, inner["node"]), "pairs range over combinations(pa(c, A), 2)",
               "parent pairs are not combinations(pa(c, A), 2): " + fmt(inner["iter"]))
     e = ("elem", inner["iter"])
     i, j = ("sub", e, ("const", 0)), ("sub", e, ("const", 1))
@@ -86,6 +89,7 @@ def vstructure_rules(rep, prog):
         lay = tup == ("phi", ("cmp", "<", i, j), t1, t2) or tup == ("phi", ("cmp", ">", i, j), t2, t1) or \
             tup == ("phi", ("cmp", "<", j, i), t2, t1) or tup == ("phi", ("cmp", ">", j, i), t1, t2) or \
             tup == ("tuple", (("ext", "min", (i, j), ()), c, ("ext", "max", (i, j), ())))
+        lay = lay or (pairs_sorted and tup == t1)
         ok = got == want and lay
         why = "condition %s, tuple %s" % (sorted(pred_fmt(x) for x in got), fmt(tup)[:120])
     rep.check("VS.condition", ok, fwhere(f, apps[0].node if apps else None),
